@@ -254,7 +254,7 @@ prop("C09", "TestC09", "exploration",
      UD_GEN + "IUPAC codes in the reference in a third of the cases; wide alignments as C08; 1 case in 2500 is 11-13k columns wide with rows beyond 64 KiB; ; non-trivial = >= 2 queries and some non-empty bin; distinct = hash of the case",
      q, t, required_labels=["queries>=2", "table", "dist-push"])
 
-q, t = tiers(8, 300, 16, 3000, floor_q=300, floor_t=3000, q_timeout=600)
+q, t = tiers(8, 500, 16, 3000, floor_q=300, floor_t=3000, q_timeout=600)
 prop("C19", "TestC19", "fault_enumeration",
      "For 14 exported entry points (snps, variants, sam variants each with and without --aggregate; toMultiAlign with and without --wrap; closest, closest -n, "
      "closest -n --table; updown list; topranking list and --table) and rapid-generated valid inputs, a counting io.Writer first records the number N of "
@@ -271,7 +271,7 @@ prop("C19", "TestC19", "fault_enumeration",
                       "entry:toMultiAlign", "entry:toMultiAlign-wrap", "entry:closest", "entry:closestN", "entry:closestN-table", "entry:updown-list",
                       "entry:topranking", "entry:topranking-table", "proc:toPairAlign-stdout", "proc:toPairAlign-symlink"])
 
-q, t = tiers(8, 250, 16, 2500, floor_q=500, floor_t=5000, q_timeout=600, t_timeout=3000)
+q, t = tiers(8, 600, 16, 4000, floor_q=500, floor_t=5000, q_timeout=600, t_timeout=3000)
 prop("C18", "TestC18", "exploration",
      "Process level, binary built from the tree. For each of snps, closest (plain and -n), updown list, updown topranking (fasta or csv query/target), "
      "variants, sam toMultiAlign, sam toPairAlign, sam variants a valid input is generated (and first run to confirm exit 0), then exactly one "
